@@ -228,9 +228,18 @@ func c07Wiegand26(card uint32) bool {
 	return fc <= 255 && cn <= 65535
 }
 
+var c07Earlier bool
+
 func c07PutCard(nformats int) {
 	verifZone(1)
 	d, u := c07Driver()
+	if c07Earlier {
+		// an earlier PutCard with its own card number (possibly the same one) and format list: the verdict of
+		// the call under test must not depend on it
+		ef := types.CardFormat(nondetU8("earlier.format"))
+		u.PutCard(nondetU32("earlier.id"), types.Card{CardNumber: nondetU32("earlier.card"), From: types.ToDate(2024, time.January, 31), To: types.ToDate(2025, time.December, 1), Doors: map[uint8]uint8{1: 1}}, ef)
+		d.calls = 0
+	}
 	id := nondetU32("id")
 	card := nondetU32("card")
 	pin := nondetU32("pin")
@@ -256,6 +265,12 @@ func VerifC07_PutCard1() { c07PutCard(1) }
 func VerifC07_PutCard2() { c07PutCard(2) }
 
 func VerifC07_T_PutCard3() { c07PutCard(3) }
+
+func VerifC07_PutCardAfterPutCard() {
+	c07Earlier = true
+	defer func() { c07Earlier = false }()
+	c07PutCard(1)
+}
 
 // the Wiegand-26 predicate on its own, over all 2^32 card numbers
 func VerifC07_Wiegand26() {
